@@ -162,7 +162,7 @@ func buildC11(e *engine, p *rt.Package) {
 						return
 					}
 					valid, _ := json.Marshal(tree)
-					kind := rapid.SampledFrom([]string{"wrong_type", "wrong_type", "wrong_type", "truncate", "trailing", "top_level", "deep_nesting", "invalid_utf8", "duplicate_key", "random_bytes", "binary_garbage", "binary_truncated", "huge_number", "read_error", "read_error", "leaf_nested_array", "leaf_nested_array"}).Draw(t, "mutation")
+					kind := rapid.SampledFrom([]string{"wrong_type", "wrong_type", "wrong_type", "truncate", "trailing", "top_level", "deep_nesting", "invalid_utf8", "duplicate_key", "random_bytes", "binary_garbage", "binary_truncated", "huge_number", "read_error", "read_error", "leaf_nested_array", "leaf_nested_array", "long_text"}).Draw(t, "mutation")
 					ct := "application/json"
 					if rapid.IntRange(0, 3).Draw(t, "odd_ct") == 0 {
 						ct = oddContentTypes[rapid.IntRange(0, len(oddContentTypes)-1).Draw(t, "ct")]
@@ -257,6 +257,17 @@ func buildC11(e *engine, p *rt.Package) {
 						} else {
 							return
 						}
+					case "long_text":
+						// hundreds of bytes of non-ASCII text where the decoder will quote it back in its error message
+						// (an unknown key, or a string where a number is expected), at every byte alignment
+						unit := rapid.SampledFrom([]string{"é", "漢", "🙂", "ß"}).Draw(t, "long_unit")
+						txt := strings.Repeat("a", rapid.IntRange(0, 5).Draw(t, "long_pad")) + strings.Repeat(unit, rapid.IntRange(60, 400).Draw(t, "long_n"))
+						if rapid.Bool().Draw(t, "long_as_key") || len(valid) < 2 || valid[0] != '{' {
+							body = []byte(`{"` + txt + `":1}`)
+						} else {
+							body = bytes.Replace(valid, []byte(":"), []byte(`:"`+txt+`","zz":`), 1)
+						}
+						desc = fmt.Sprintf("long_text unit=%s bytes=%d", unit, len(txt))
 					case "huge_number":
 						body = bytes.Replace(valid, []byte(":"), []byte(":1e999999,\"zz\":"), 1)
 					case "random_bytes":
